@@ -8,6 +8,8 @@ import (
 	"fmt"
 	"hash/fnv"
 	"io"
+	"math"
+	"math/big"
 	"strconv"
 	"strings"
 )
@@ -105,10 +107,35 @@ func parseValue(dec *json.Decoder) (*Node, error) {
 // test documents it hashes), computed here with strconv on the token.
 func numText(tok string) string {
 	f, err := strconv.ParseFloat(tok, 64)
-	if err != nil {
+	if err != nil && !math.IsInf(f, 0) {
 		return "?" + tok
 	}
+	// a token beyond the float64 range (1e400) reads as an infinity ("+Inf" / "-Inf")
 	return strconv.FormatFloat(f, 'f', 2, 64)
+}
+
+// numRat: the exact value a number token denotes (nil when it is not a number,
+// or its exponent is too large to be worth expanding).
+func numRat(tok string) *big.Rat {
+	if i := strings.IndexAny(tok, "eE"); i >= 0 {
+		if e, err := strconv.Atoi(tok[i+1:]); err != nil || e > 2000 || e < -2000 {
+			return nil
+		}
+	}
+	r, ok := new(big.Rat).SetString(tok)
+	if !ok {
+		return nil
+	}
+	return r
+}
+
+// sameNumber: the two tokens denote the same number (exactly).
+func sameNumber(a, b string) bool {
+	if a == b {
+		return true
+	}
+	x, y := numRat(a), numRat(b)
+	return x != nil && y != nil && x.Cmp(y) == 0
 }
 
 // leafText: the text of a primitive that is fed to the hasher.
